@@ -1,6 +1,7 @@
 package main
 
 import (
+	"fmt"
 	"strconv"
 	"strings"
 	"verifharness/docs"
@@ -507,5 +508,129 @@ func c09(r *mon.Run) {
 				t.Nontrivial("large:" + expr + ref.Canon(doc))
 			}
 		}}
-	r.Exec(exh, typed, every, strw, trw, akw, kindPairsWorkload(r, "C09"), ctx, large, sizedWorkload(r, "sized-arrays", false))
+	// one compiled expression searched on several hundred documents in a row, most of which make an inner
+	// call fail: a well-typed call nested in another call returns its value whatever the earlier searches on
+	// the same compiled expression did (counters, depth guards and scratch state left behind by a failing
+	// argument must not accumulate)
+	reuseTrees := c09ReuseTrees()
+	const reuseDocs = 330
+	reuse := mon.Workload{Name: "one-compiled-expression-over-many-documents", N: len(reuseTrees), Batch: 4,
+		Describe: func(i int) string { return gen.Spell(reuseTrees[i]) + " on 330 documents in a row" },
+		Do: func(i int, t *mon.Tally) {
+			tree := reuseTrees[i]
+			expr := gen.Spell(tree)
+			jp, co := apiCompile(expr)
+			if co.Panicked || co.Err != nil {
+				r.Violate(&mon.Violation{Workload: "one-compiled-expression-over-many-documents", Index: i, API: "Compile", Expr: expr, Expected: "compiles", Observed: co.String(), Class: "reuse: does not compile"})
+				return
+			}
+			cx := &caseCtx{r, t, "one-compiled-expression-over-many-documents", i}
+			for j := 0; j < reuseDocs; j++ {
+				doc := c09ReuseDoc(j)
+				res := ref.RefSet(tree, doc, gen.Quirks{})
+				o := apiJP(jp, mon.DeepCopy(doc))
+				if !cx.judge(tree, expr, doc, fmt.Sprintf("Compile+Search (search %d on the same compiled expression; %d of the earlier documents were ill-typed)", j+1, j-j/8), o, res) {
+					return
+				}
+				if !isErr(res) && res.Skipped == "" && !res.DontCare {
+					t.Count("reuse: well-typed document after ill-typed ones")
+					if j > 300 {
+						t.Nontrivial("reuse:" + expr)
+					}
+				} else if isErr(res) {
+					t.Count("reuse: ill-typed document (error expected)")
+				}
+			}
+		}}
+	// max_by / min_by / sort_by / map over lists that contain null (and other non-object) elements, with key
+	// expressions that give such elements a key: the first extremal element is returned also when it is null
+	nullU := []interface{}{nil, float64(1), float64(9), float64(5)}
+	nullLists := arraysOver(nullU, 4)
+	nullKeys := []func() *gen.Expr{
+		func() *gen.Expr { return gen.Func("not_null", gen.Current(), gen.LitJSON("5")) },
+		func() *gen.Expr { return gen.Func("not_null", gen.Current(), gen.LitJSON("0")) },
+		func() *gen.Expr { return gen.Func("not_null", gen.Current(), gen.LitJSON("99")) },
+		func() *gen.Expr { return gen.Func("type", gen.Current()) },
+		func() *gen.Expr { return gen.Func("to_string", gen.Current()) },
+		func() *gen.Expr { return gen.Func("length", gen.Func("to_string", gen.Current())) },
+		func() *gen.Expr { return gen.Current() },
+	}
+	nullFns := []string{"max_by", "min_by", "sort_by", "map"}
+	nullw := mon.Workload{Name: "by-functions-over-lists-with-nulls", N: len(nullLists) * len(nullKeys) * len(nullFns), Batch: 1000,
+		Do: func(i int, t *mon.Tally) {
+			fn := nullFns[i%len(nullFns)]
+			key := nullKeys[i/len(nullFns)%len(nullKeys)]()
+			list := nullLists[i/len(nullFns)/len(nullKeys)]
+			doc := map[string]interface{}{"l": list}
+			var tree *gen.Expr
+			if fn == "map" {
+				tree = gen.Func("map", gen.ExpRef(key), gen.Field("l"))
+			} else {
+				tree = gen.Func(fn, gen.Field("l"), gen.ExpRef(key))
+			}
+			if i%3 == 2 {
+				tree = gen.MultiList(tree, gen.Func("type", tree))
+			}
+			cx := &caseCtx{r, t, "by-functions-over-lists-with-nulls", i}
+			res, _, _ := cx.runBoth(tree, gen.Spell(tree), doc)
+			if !isErr(res) && res.Skipped == "" && !res.DontCare {
+				t.Nontrivial("nulls:" + strconv.Itoa(i))
+				t.Count("by-functions over lists with nulls: value expected")
+			}
+		}}
+	r.Exec(exh, typed, every, strw, trw, akw, kindPairsWorkload(r, "C09"), ctx, large, sizedWorkload(r, "sized-arrays", false), reuse, nullw)
+}
+
+// c09ReuseTrees: calls nested in the arguments of other calls (and in expression references, projections,
+// filters, multi-selects) over the fields of c09ReuseDoc.
+func c09ReuseTrees() []*gen.Expr {
+	d, a, sf, rows, o := func() *gen.Expr { return gen.Field("d") }, func() *gen.Expr { return gen.Field("a") }, func() *gen.Expr { return gen.Field("s") }, func() *gen.Expr { return gen.Field("rows") }, func() *gen.Expr { return gen.Field("o") }
+	abs := func(x *gen.Expr) *gen.Expr { return gen.Func("abs", x) }
+	return []*gen.Expr{
+		gen.Func("to_string", abs(d())), gen.Func("length", gen.Func("to_string", abs(d()))), abs(gen.Func("sum", a())), gen.Func("ceil", abs(gen.Func("avg", a()))),
+		gen.Chain(gen.Func("sort_by", rows(), gen.ExpRef(abs(gen.Field("k")))), gen.StListStar(), gen.StField("i")), gen.Func("map", gen.ExpRef(abs(gen.Current())), a()),
+		gen.Func("join", gen.Raw(","), gen.Func("map", gen.ExpRef(gen.Func("to_string", abs(gen.Current()))), a())), gen.Chain(gen.Func("max_by", rows(), gen.ExpRef(gen.Func("length", gen.Field("s")))), gen.StField("i")),
+		gen.Func("not_null", abs(d()), gen.Raw("x")), gen.MultiList(abs(d()), gen.Func("length", sf())), gen.Chain(a(), gen.StListStar(), gen.StFunc("abs", gen.Current())),
+		gen.Chain(a(), gen.StFilter(gen.Cmp(">", abs(gen.Current()), gen.LitJSON("1")))), gen.Or(abs(d()), gen.Raw("x")), gen.Func("starts_with", gen.Func("to_string", abs(d())), sf()),
+		gen.Func("merge", o(), gen.MultiHash(keyA("x"), []*gen.Expr{abs(d())})), gen.Func("contains", gen.Func("keys", o()), sf()), gen.Func("reverse", gen.Func("sort", a())),
+		gen.Func("max", gen.Func("map", gen.ExpRef(gen.Func("length", gen.Field("s"))), rows())), gen.Func("floor", gen.Func("to_number", gen.Func("to_string", abs(d())))), gen.Func("length", gen.Func("join", sf(), gen.Func("map", gen.ExpRef(gen.Field("s")), rows()))),
+		gen.Func("abs", gen.Func("abs", gen.Func("abs", gen.Func("abs", d())))), gen.Func("sum", gen.Func("map", gen.ExpRef(gen.Func("abs", gen.Func("ceil", gen.Field("k")))), rows())),
+		gen.Func("sort_by", gen.Func("sort_by", rows(), gen.ExpRef(gen.Field("s"))), gen.ExpRef(abs(gen.Field("k")))), gen.Func("min_by", rows(), gen.ExpRef(gen.Func("sum", gen.MultiList(gen.Field("k"), abs(gen.Field("k")))))),
+		gen.Pipe(abs(d()), gen.Func("to_string", gen.Current())), gen.Func("type", gen.Func("values", o())), gen.Func("ends_with", gen.Func("join", gen.Raw("-"), gen.Func("sort", gen.Func("keys", o()))), sf()),
+		gen.Func("avg", gen.Func("map", gen.ExpRef(gen.Func("length", gen.Func("to_string", gen.Current()))), a())),
+	}
+}
+
+// c09ReuseDoc: document j of the sequence. Seven of every eight make one of the nested calls ill-typed (each in
+// a different way); every eighth is well-typed (with values that depend on j).
+func c09ReuseDoc(j int) map[string]interface{} {
+	f := float64(j%13) - 6.5
+	doc := map[string]interface{}{
+		"d": f, "a": []interface{}{f, float64(2), float64(-3)}, "s": "s" + strconv.Itoa(j%3),
+		"rows": []interface{}{map[string]interface{}{"k": float64(-2), "s": "bb", "i": float64(0)}, map[string]interface{}{"k": f, "s": "a", "i": float64(1)}, map[string]interface{}{"k": float64(1), "s": "ccc", "i": float64(2)}},
+		"o":    map[string]interface{}{"s0": float64(1), "k" + strconv.Itoa(j%2): "v"},
+	}
+	switch j % 8 {
+	case 0:
+		doc["d"], doc["a"] = "str", []interface{}{f, "x", float64(1)}
+	case 1:
+		doc["d"], doc["a"] = nil, "not an array"
+	case 2:
+		doc["d"], doc["s"] = []interface{}{f}, float64(3)
+		doc["rows"].([]interface{})[1].(map[string]interface{})["k"] = "k"
+	case 3:
+		doc["d"], doc["o"] = true, []interface{}{}
+		doc["rows"].([]interface{})[2].(map[string]interface{})["s"] = float64(0)
+	case 4:
+		doc["d"], doc["a"] = map[string]interface{}{}, []interface{}{nil}
+		doc["rows"] = "none"
+	case 5:
+		doc["d"], doc["a"], doc["s"], doc["o"] = "1", []interface{}{"1", "2"}, nil, nil
+	case 6:
+		doc["d"] = "-"
+		doc["a"] = []interface{}{float64(1), []interface{}{float64(2)}}
+		doc["rows"].([]interface{})[0].(map[string]interface{})["k"] = nil
+		doc["s"] = []interface{}{"s"}
+	}
+	return doc
 }
